@@ -12,13 +12,16 @@ from values import canon
 
 PROP = 'C02'
 THEOREMS = ['C02_encoder_in_spec', 'C02_decoder_accepts_spec', 'C02_layout_sound', 'C02_audit_accepts_spec', 'C02_spec_longs',
-            'C02_spec_record', 'C02_spec_array', 'C02_spec_union', 'C02_lax_layout', 'C02_audit_example']
+            'C02_spec_record', 'C02_spec_array', 'C02_spec_union', 'C02_lax_layout', 'C02_audit_example',
+            'C02_audit_only_spec_refuted']
 CFG = '(cfg 536870912 56 80)'
 RULE = ('(schema, value) pairs as in C01 (all primitive / logical / named / recursive kinds); per pair the '
         'implementation encoding and up to 6 specification-legal layouts from the certified generator: block '
         'size 1, 2, 3 x positive counts / negative counts with byte sizes. non-trivial = distinct layouts that '
         'differ from the implementation\'s own bytes (i.e. the value contains a non-empty array or map); plus the serde writer on 12 corpus '
-        'types x target block sizes {none,1,16,64,large}, its bytes read by the strict block auditor and the specification decoder')
+        'types x target block sizes {none,1,16,64,large}, its bytes read by the strict block auditor and the specification decoder; '
+        'plus padded (overlong) variable-length integers in every position (datum, length, block count, block size, branch index), '
+        'the witness of C02_audit_only_spec_refuted, read by the implementation and by the model')
 
 def gen_cases(tier, seed):
     rng = Rng(seed)
@@ -175,6 +178,62 @@ def serde_audit(run, exe, drv, tier, seed):
         if len(set(dd.values())) > 1:
             run.fail('block-size-changes-value', 'block sizes %s give different data' % sorted(dd), {'type': t, 'seed_index': int(i)})
 
+# padded variable-length integers: outside the specification relation (C02_audit_only_spec_refuted), read by
+# decode_variable like the minimal form.  (schema, padded bytes, the minimal encoding of the same datum)
+OVERLONG = [
+    ('"long"', '8000', '00'), ('"long"', '80808000', '00'), ('"long"', '818000', '01'), ('"int"', '8000', '00'),
+    ('"int"', '828000', '02'), ('"string"', '820061', '0261'), ('"bytes"', '8000', '00'),
+    ('{"type":"array","items":"long"}', '828000048000', '020400'),
+    ('{"type":"array","items":"long"}', '8180008280000400', '01020400'),
+    ('{"type":"map","values":"int"}', '02820061048000', '0202610400'),
+    ('["null","long"]', '820004', '0204'), ('["null","long"]', '8000', '00'),
+    ('{"type":"enum","name":"e","symbols":["a","b"]}', '8200', '02'),
+    ('{"type":"record","name":"r","fields":[{"name":"a","type":"long"},{"name":"b","type":"string"}]}', 'b68000868000666f6f', '3606666f6f'),
+]
+
+def overlong(run, exe, drv):
+    """the witness of C02_audit_only_spec_refuted and its relatives on the implementation: a padded integer is
+    read as the minimal form by GenericDatumReader, by the schema-aware deserializer and by the model alike"""
+    lines = []
+    for i, (st, pad, mini) in enumerate(OVERLONG):
+        lines.append('o%dp (decode2 %s #%s)' % (i, hx(st), pad))
+        lines.append('o%dm (decode2 %s #%s)' % (i, hx(st), mini))
+    got = {k: parse(v) for k, v in fw.run_lines(exe, lines).items()}
+    ml = []
+    for i, (st, pad, mini) in enumerate(OVERLONG):
+        o = got.get('o%dp' % i)
+        if tag(o) == 'obs':
+            ml.append('o%dd (decode %s %s #%s)' % (i, CFG, show(o[1]), pad))
+            ml.append('o%da (audit %s %s #%s)' % (i, CFG, show(o[1]), pad))
+    model = {k: parse(v) for k, v in fw.run_lines(drv, ml).items()}
+    for i, (st, pad, mini) in enumerate(OVERLONG):
+        run.evaluations += 1
+        case = {'schema': st, 'padded': pad, 'minimal': mini}
+        op, om = got.get('o%dp' % i), got.get('o%dm' % i)
+        d, a = model.get('o%dd' % i), model.get('o%da' % i)
+        if tag(op) != 'obs' or tag(om) != 'obs' or tag(om[2]) != 'ok' or om[2][2] != '#':
+            run.fail('impl-' + str(tag(op)), 'outcome %s / %s' % (show(op)[:80], show(om)[:80]), case)
+            continue
+        # model and implementation agree on the padded input (both readers), and the auditor follows the decoder
+        impl_g = show(canon(op[2][1], True)) + ' ' + op[2][2] if tag(op[2]) == 'ok' else str(tag(op[2]))
+        impl_d = 'ok ' + op[6][1] if tag(op[6]) == 'ok' else str(tag(op[6]))
+        mod = show(canon(d[1], True)) + ' ' + d[2] if tag(d) == 'ok' else str(tag(d))
+        if impl_g != mod:
+            run.disagree('overlong', case, impl_g[:200], mod[:200])
+            continue
+        if (tag(a) == 'ok') != (tag(d) == 'ok'):
+            run.disagree('overlong-audit', case, show(d)[:100], show(a)[:100])
+            continue
+        run.count('overlong:' + ('accepted' if tag(d) == 'ok' else 'rejected'))
+        if tag(op[2]) == 'ok':
+            # whatever is accepted must be the datum of the minimal form, nothing left, by both readers
+            if show(canon(op[2][1], True)) != show(canon(om[2][1], True)) or op[2][2] != '#':
+                run.fail('overlong-misread', 'padded integers change the datum: %s, minimal form reads %s' % (impl_g[:100], show(om[2][1])[:100]), case)
+            elif impl_d != 'ok #':
+                run.fail('overlong-deserializer-differs', 'generic reader accepts, schema-aware deserializer: %s' % impl_d[:80], case)
+            else:
+                run.nontrivial_case('overlong' + st + pad)
+
 def run(tier, seed):
     run_ = fw.Run(PROP, tier, seed)
     run_.proof = fw.proof_step(PROP, THEOREMS)
@@ -183,6 +242,7 @@ def run(tier, seed):
     lines, meta = gen_cases(tier, seed)
     evaluate(run_, lines, meta, exe, drv)
     serde_audit(run_, exe, drv, tier, seed)
+    overlong(run_, exe, drv)
     return fw.finish(run_, 'theorems C02_* (specification relation) + certified-layout differential check', RULE, search)
 
 def search(run_):
